@@ -33,9 +33,12 @@ Classes(r) == [i \in DOMAIN r.numerals |-> ClassOfText(r.numerals[i])]
 Why(r) ==
   LET o == r.out
       \* texts of several thousand characters are judged by the print / re-parse / bridge relations alone (dom = FALSE below)
-      p == IF Len(r.text) > 1500 THEN [ok |-> TRUE, dom |-> FALSE, v |-> JNull] ELSE JsonParse(r.text)
+      p == IF Len(r.text) > 1500 THEN [ok |-> TRUE, dom |-> FALSE, v |-> JNull]
+           ELSE IF NestDepth(r.text) > 100 THEN [ok |-> JsonParse(r.text).ok, dom |-> FALSE, v |-> JNull]     \* very deep: relations only
+           ELSE JsonParse(r.text)
       cls == Classes(r) IN
-  IF "printed" \notin DOMAIN o THEN (IF "parse_err" \in DOMAIN o /\ (~p.ok \/ \E i \in DOMAIN cls : cls[i] = "near") THEN "none" ELSE "failed")
+  IF "printed" \notin DOMAIN o
+  THEN (IF "parse_err" \in DOMAIN o /\ (~p.ok \/ \E i \in DOMAIN cls : cls[i] = "near" /\ ("want" \notin DOMAIN o \/ ~o.want[i].finite)) THEN "none" ELSE "failed")
   ELSE IF ~p.ok THEN "accepted"
   ELSE IF r.kind = "num" /\ Len(o.nums) # Len(cls) THEN "numcount"
   ELSE IF r.kind = "num" /\ \E i \in DOMAIN cls : ~NumOk(cls[i], r.numerals[i], o.nums[i], o.want[i])
@@ -49,12 +52,15 @@ Why(r) ==
   ELSE "none"
 
 Allowed(r) == Why(r) = "none"
-Expected(r) == LET p == IF Len(r.text) > 1500 THEN [ok |-> TRUE, dom |-> FALSE] ELSE JsonParse(r.text) IN [why |-> Why(r), classes |-> Classes(r), value |-> IF p.ok /\ p.dom THEN p.v ELSE [t |-> "outside"]]
+Expected(r) == LET p == IF Len(r.text) > 1500 \/ NestDepth(r.text) > 100 THEN [ok |-> TRUE, dom |-> FALSE] ELSE JsonParse(r.text) IN [why |-> Why(r), classes |-> Classes(r), value |-> IF p.ok /\ p.dom THEN p.v ELSE [t |-> "outside"]]
 (* the one recorded deviation: the JSON layer re-spells the integer numeral -0 as -0.0 *)
 Explains(r) ==
   IF "DEV_NEG_ZERO_RESPELLED" \in KnownDevs /\ Why(r) = "negzero" /\ "printed" \in DOMAIN r.out
      /\ \E i \in DOMAIN r.numerals : Classes(r)[i] = "negzero" /\ "bits" \in DOMAIN r.out.nums[i] /\ r.out.nums[i].bits = <<32768, 0, 0, 0>>
-  THEN <<"DEV_NEG_ZERO_RESPELLED">> ELSE <<>>
+  THEN <<"DEV_NEG_ZERO_RESPELLED">>
+  \* the other recorded deviation: the JSON layer refuses texts nested 128 levels or deeper
+  ELSE IF "DEV_JSON_DEPTH_LIMIT_128" \in KnownDevs /\ Why(r) = "failed" /\ "parse_err" \in DOMAIN r.out /\ NestDepth(r.text) >= 128
+  THEN <<"DEV_JSON_DEPTH_LIMIT_128">> ELSE <<>>
 NonTrivial(r) == r.kind # "struct" \/ Len(r.text) > 6
 Unjudged(r) == FALSE
 
